@@ -5,9 +5,9 @@
      SevenZipFile._extract       (the name filter: exact membership, or, with recursive=True,
                                   membership or `f.filename.startswith(target)`; registration
                                   of the outputs under `f.id`; directories are never registered)
-     SevenZipFile._real_get_contents  (`folder.files = ArchiveFileList(offset=file_id)`: the
-                                  members of a folder's file list are numbered offset+index,
-                                  NOT with the header index they were stored under)
+     SevenZipFile._real_get_contents  (`folder.files = ArchiveFileList(offset=file_id)` and the
+                                  numbering of the members of a folder's file list: see
+                                  folder_files below)
      Worker.extract              (no folder / one folder / several folders: empty-stream
                                   entries first, then folder by folder, folders without a
                                   registered member skipped)
@@ -96,11 +96,15 @@ Definition empties (a : archive) : list (nat * entry) :=
 Definition folder_members (a : archive) (k : nat) : list (nat * entry) :=
   filter (fun m => in_folder k (snd m)) (all_files a).
 (* folders[k].files as iterated by the worker.
-   stored = false (py7zr as it is): ArchiveFileList(offset = header index of the folder's first
-   data member); __getitem__(index) = ArchiveFile(index + offset, ...).
-   stored = true: the repaired numbering (each member keeps the header index it is stored
-   under).  The harness observes which of the two the implementation uses (ids of
-   folders[k].files) and runs the model with that flag; every theorem is stated for both. *)
+   stored = true (py7zr since `fix: use each member's own index as its id in multi-folder
+   extraction`): ArchiveFileList keeps the header index of every appended member
+   (`folder.files.append(file_info, file_id)`, __getitem__ uses self.ids[index]).
+   stored = false (py7zr before that repair, kept so that a regression is recognised and
+   explained): ArchiveFileList(offset = header index of the folder's first data member);
+   __getitem__(index) = ArchiveFile(index + offset, ...).
+   The harness observes which of the two numberings the implementation has (ids of
+   folders[k].files on a probe archive) and runs the model with that flag; every theorem is
+   stated for both. *)
 Definition folder_files (stored : bool) (a : archive) (k : nat) : list (nat * entry) :=
   if stored then folder_members a k else
   match folder_members a k with
